@@ -252,11 +252,20 @@ theorem step_runMethod_drv (t : Tx) (c : ConnId) (m : Msg) (w : Method) (hw : w 
   | opaqueM =>
     simp only [runMethod]
     have hf := opaque_fold_frame (captureTargets t.bus none (some c) (stampDriver t.bus c (mkReturn m [] []))) m.serial t
-    refine ⟨?_, [.opaque c m.serial], ?_, by intro o ho; simp at ho; subst ho; trivial⟩
-    · show KDrv t.bus (Tx.emit _ _).bus
-      rw [emit_bus, hf.1]; exact KMod.refl _ _
-    · show (Tx.emit _ _).out = _
-      simp only [emit_out, hf.2]
+    have kd : ∀ p : List Pending, KDrv t.bus { t.bus with pending := p } := fun p => ⟨rfl, rfl, rfl, rfl, rfl, rfl⟩
+    split
+    · rename_i p e hp
+      refine ⟨?_, [], ?_, by intro o ho; cases ho⟩
+      · rw [(captureError_frame _ _ _ _).1]
+        show KDrv t.bus { (List.foldl _ t _).bus with pending := p }
+        rw [hf.1]; exact kd p
+      · rw [(captureError_frame _ _ _ _).2]; simp [hf.2]
+    · rename_i p hp
+      refine ⟨?_, [.opaque c m.serial], ?_, by intro o ho; simp at ho; subst ho; trivial⟩
+      · show KDrv t.bus { (List.foldl _ t _).bus with pending := p }
+        rw [hf.1]; exact kd p
+      · show (Tx.emit _ _).out = _
+        simp only [emit_out, setPending_out, hf.2]
 
 
 theorem inj_of_nodup_map {α β : Type} (f : α → β) : ∀ {l : List α}, (l.map f).Nodup →
@@ -526,7 +535,7 @@ theorem view_disconnectTx (b : Bus) (c : ConnId) (x : Conn) :
     unfold names at this
     rw [← this, List.filter_map]
     rfl
-  · rw [e2.2.2.2.2.2.2]
+  · rw [e2.2.2.2.2.2.2.1]
     show (releaseAll _ c _).bus.minted = _
     rw [h1.2.2.2.2.2]; exact cl.2.1.trans g.2.1
   · unfold cnt
@@ -578,6 +587,7 @@ def evConn : Ev → ConnId
   | .invalid c => c
   | .close c => c
   | .timeout => 0
+  | .stall c _ => c
 
 /-- one step changes the view in one of four ways -/
 theorem view_step (tbl : List IfaceRow) (b : Bus) (ev : Ev) :
@@ -606,6 +616,7 @@ theorem view_step (tbl : List IfaceRow) (b : Bus) (ev : Ev) :
         (b.pending.foldl (fun t p => sendError t p.caller (fakeCall p.serial) .noReply) ({ bus := { b with pending := [] } } : Tx)) :=
       step_fold KCore.refl KCore.trans _ (fun t p => step_sendError t _ _ _) _ _
     exact ViewStep.of_core _ (KCore.trans _ _ _ (show KCore b { b with pending := [] } from rfl) h.bus)
+  | stall c on => exact Or.inl (.same rfl rfl rfl)
 
 theorem namesInv_step (tbl : List IfaceRow) (b : Bus) (ev : Ev) (hi : NamesInv b) : NamesInv (step tbl b ev).1 := by
   rcases view_step tbl b ev with h | ⟨c, _, hc, hn, hm, hcn⟩
